@@ -167,6 +167,7 @@ def match_known(known, part_name, v):
 class Stats:
     def __init__(self):
         self.evaluations = 0
+        self.units = 0  # enumerated sub-evaluations reported by run() (limits, flips, faults)
         self.nontrivial = set()
         self.classes = Counter()
         self.samples = []
@@ -179,6 +180,7 @@ class Stats:
         self.evaluations += 1
         if not res:
             return
+        self.units += int(res.get("units", 0))
         for c in res.get("classes", ()):
             self.classes[c] += 1
         if res.get("nontrivial"):
@@ -192,6 +194,7 @@ class Stats:
     def to_dict(self):
         return {
             "evaluations": self.evaluations,
+            "units": self.units,
             "nontrivial": list(self.nontrivial),
             "classes": dict(self.classes),
             "samples": self.samples,
@@ -566,6 +569,7 @@ def do_run(mod, prop_id, tier, seed, t0, only_part=None):
         pp["nontrivial"].update(bytes(x) for x in r["nontrivial"])
         pp["classes"].update(r["classes"])
         total.evaluations += r["evaluations"]
+        total.units += r.get("units", 0)
         total.nontrivial.update((pname, bytes(x)) for x in r["nontrivial"])
         total.classes.update({f"{pname}:{k}": v for k, v in r["classes"].items()})
         for s in r["samples"]:
@@ -633,6 +637,7 @@ def do_run(mod, prop_id, tier, seed, t0, only_part=None):
             for k, v in per_part.items()
         },
         "replayed_regression_cases": replayed,
+        "enumerated_sub_evaluations": total.units,
         "excluded_known": dict(total.excluded_known),
         "new_buckets": [s for s, _, _ in violations],
         "shards": len(jobs),
